@@ -43,6 +43,7 @@ func goEnv() []string {
 	set := map[string]string{
 		"GOFLAGS": "-mod=mod", "GOPROXY": "off", "GOSUMDB": "off", "GOTOOLCHAIN": "local",
 		"GOMEMLIMIT": "6GiB", "VERIF_FONTS": filepath.Join(harnessDir, "testdata", "fonts"),
+		"GORACE": "halt_on_error=1",
 	}
 	var out []string
 	for _, e := range env {
@@ -149,7 +150,10 @@ func derive(seed uint64, prop, shard, restart int) uint64 {
 	return x >> 1 // rapid takes uint64; keep it positive in any int64 rendering
 }
 
-var reFrameLine = regexp.MustCompile(`(?m)^github\.com/benoitkugler/webrender/([^\s(]+(?:\([^)]*\))?[^\s(]*)\(`)
+var reFrameLine = regexp.MustCompile(`(?m)^\s*github\.com/benoitkugler/webrender/([^\s(]+(?:\([^)]*\))?[^\s(]*)\(`)
+
+// reRaceAccess: the innermost module frame of each access of a race report
+var reRaceAccess = regexp.MustCompile(`(?m)^(?:Read|Write|Previous read|Previous write) at [^\n]*\n((?:  [^\n]*\n      [^\n]*\n)*?)  github\.com/benoitkugler/webrender/([^\s(]+(?:\([^)]*\))?[^\s(]*)\(`)
 
 // deathSig classifies the stderr of a worker that died.
 func deathSig(stderr string, code int) string {
@@ -187,7 +191,18 @@ func deathSig(stderr string, code int) string {
 		site = fs[0]
 	}
 	if kind == "race" {
-		if len(fs) > 1 {
+		acc := map[string]bool{}
+		for _, m := range reRaceAccess.FindAllStringSubmatch(stderr, 2) {
+			acc[m[2]] = true
+		}
+		if len(acc) > 0 {
+			var as []string
+			for a := range acc {
+				as = append(as, a)
+			}
+			sort.Strings(as)
+			site = strings.Join(as, "+")
+		} else if len(fs) > 1 {
 			site = fs[0] + "+" + fs[1]
 		}
 	}
@@ -626,7 +641,8 @@ func runCheck(id, tier, work string) int {
 				knownHits[f.ID]++
 				continue
 			}
-			if !in.CrashIsViol {
+			isRace := in.Race && (strings.HasPrefix(d.Sig, "race:") || strings.HasPrefix(d.Sig, "fatal:concurrent-map"))
+			if !in.CrashIsViol && !isRace {
 				if f := ledger.MatchCrash(d.Sig); f != nil {
 					excluded["crash-known:"+f.ID]++
 				} else {
